@@ -80,7 +80,10 @@ func webDocs() []map[string]any {
 	return []map[string]any{d0, d1}
 }
 
-func nutsDoc() map[string]any {
+func nutsDoc() map[string]any { return nutsDocFor(keyA, keyB) }
+
+// nutsDocFor builds a valid did:nuts document whose id is the thumbprint of k0 (k1 is its second key).
+func nutsDocFor(k0, k1 *ecdsa.PrivateKey) map[string]any {
 	mk := func(k *ecdsa.PrivateKey) (jwk.Key, string) {
 		j, err := jwk.FromRaw(k.Public())
 		if err != nil {
@@ -89,8 +92,8 @@ func nutsDoc() map[string]any {
 		_ = jwk.AssignKeyID(j)
 		return j, j.KeyID()
 	}
-	j0, kid0 := mk(keyA)
-	_, kid1 := mk(keyB)
+	j0, kid0 := mk(k0)
+	_, kid1 := mk(k1)
 	idStr, err := nutsCrypto.Thumbprint(j0)
 	if err != nil {
 		panic(err)
@@ -103,7 +106,7 @@ func nutsDoc() map[string]any {
 		"@context":             []any{"https://www.w3.org/ns/did/v1", "https://w3c-ccg.github.io/lds-jws2020/contexts/lds-jws2020-v1.json"},
 		"id":                   id,
 		"controller":           []any{id},
-		"verificationMethod":   []any{vm(kid0, keyA), vm(kid1, keyB)},
+		"verificationMethod":   []any{vm(kid0, k0), vm(kid1, k1)},
 		"assertionMethod":      []any{id + "#" + kid0},
 		"authentication":       []any{id + "#" + kid0},
 		"capabilityInvocation": []any{id + "#" + kid0},
